@@ -122,14 +122,29 @@ pub fn offset_at(tz: &Tz, secs: i64) -> i32 {
 pub const T1980: i64 = 315_532_800;
 pub const T2060: i64 = 2_840_140_800;
 
-fn rules_signature(tz: &Tz) -> Vec<i32> {
-    let mut v = vec![];
-    let mut t = T1980;
-    while t < T2060 {
-        v.push(offset_at(tz, t));
-        t += 86400 * 5 + 3600 * 7;
-    }
-    v
+/// exact rules of a zone in [1980, 2060): initial offset and every (transition instant, offset after)
+fn rules_signature(tz: &Tz) -> &'static (i32, Vec<(i64, i32)>) {
+    static RULES: std::sync::OnceLock<std::collections::BTreeMap<String, (i32, Vec<(i64, i32)>)>> = std::sync::OnceLock::new();
+    let map = RULES.get_or_init(|| {
+        let zones: Vec<&Tz> = TZ_VARIANTS.iter().collect();
+        let out = std::sync::Mutex::new(std::collections::BTreeMap::new());
+        let next = std::sync::atomic::AtomicUsize::new(0);
+        std::thread::scope(|s| {
+            for _ in 0..crate::engine::workers() {
+                s.spawn(|| loop {
+                    let i = next.fetch_add(1, std::sync::atomic::Ordering::Relaxed);
+                    if i >= zones.len() {
+                        break;
+                    }
+                    let z = zones[i];
+                    let tr: Vec<(i64, i32)> = transitions(z).into_iter().map(|t| (t, offset_at(z, t))).collect();
+                    out.lock().unwrap().insert(z.name().to_string(), (offset_at(z, T1980), tr));
+                });
+            }
+        });
+        out.into_inner().unwrap()
+    });
+    map.get(tz.name()).expect("zone rules")
 }
 
 fn regions() -> BTreeSet<String> {
